@@ -239,6 +239,56 @@ def oracle(sc, obs):
         v.append(_V("no_end_hook", {"pending_hooks": sorted(set(obs.pending_hooks))},
                     f"a peer closed ({closers[0][1]} {closers[0][2]}) but websocket_end never fired; hooks={hooknames}"))
 
+    first = obs.first_sight
+
+    # ---- mitmproxy itself declared a protocol error although both peers sent valid traffic ------------------------
+    sent_closes = {(s_["code"], s_["reason"]) for who in ("client", "server") for s_ in obs.sent[who] if s_["what"] == "close"}
+    if any(c_[2] == "fin" for c_ in closers):
+        sent_closes.add((1000, b""))     # abnormal closure (1006) may not go on the wire; wsproto sends 1000 instead
+    for who in ("client", "server"):
+        fr = obs.rx[who]
+        for it in (fr.items if fr else []):
+            if it[0] == "close" and (it[1], it[2]) not in sent_closes:
+                ping_inside = any(s_.get("ping_inside") for w_ in ("client", "server") for s_ in obs.sent[w_])
+                v.append(_V("proxy_initiated_close", {"code": it[1], "deflate": obs.deflate,
+                                                      "control_frame_inside_fragmented_message": ping_inside},
+                            f"the {who} received Close {it[1]} {_short(it[2], 60)} that no peer sent (recorded close: {obs.close_info})"))
+                return v, probes
+
+    # ---- an injection while a message from the same side is only partly received ------------------------------------
+    inj_rec = [i for i, m in enumerate(rec) if m[3]]
+    inj_ops = [x for x in obs.injected if x[4] == "ok"]
+    for k, i in enumerate(inj_rec):
+        fsight = first.get(i)
+        if k >= len(inj_ops) or fsight is None:
+            break
+        t, to_client, is_text, data, _ = inj_ops[k]
+        if fsight[2] != data:
+            src = "server" if to_client else "client"
+            if len(fsight[2]) > len(data) and fsight[2].endswith(data) and any(
+                    s_["what"] == "msg" and s_["t0"] <= t <= (s_["t1"] if s_["t1"] is not None else t) + 1.0
+                    for s_ in obs.sent[src]):
+                v.append(_V("injection_merged_with_partial_message", {},
+                            f"message injected towards the {'client' if to_client else 'server'} ({_short(data)}) while a message "
+                            f"of the {src} was only partly received: addons saw the injected message as ({fsight[0]}, "
+                            f"{_short(fsight[2], 48)}) = buffered partial data + the injected bytes"))
+                return v, probes
+            for s_ in obs.sent[src]:
+                if s_["what"] != "msg" or not s_["data"]:
+                    continue
+                n = 0
+                while n < min(len(s_["data"]), len(fsight[2])) and s_["data"][n] == fsight[2][n]:
+                    n += 1
+                m = 0
+                while m < min(len(data), len(fsight[2])) and data[m] == fsight[2][m]:
+                    m += 1
+                if n > m and s_["t0"] <= t <= (s_["t1"] if s_["t1"] is not None else t) + 1.0:
+                    v.append(_V("injection_merged_with_partial_message", {},
+                                f"message injected towards the {'client' if to_client else 'server'} ({_short(data)}) while the "
+                                f"{src}'s message {_short(s_['data'])} was only partly received: addons saw the injected message as "
+                                f"({fsight[0]}, {_short(fsight[2], 48)}); recorded={[(m_[0], m_[1], _short(m_[2], 24)) for m_ in rec]}"))
+                    return v, probes
+
     for who in ("client", "server"):
         fr = obs.rx[who]
         if fr is None:
@@ -279,11 +329,9 @@ def oracle(sc, obs):
                             f"{d}: message #{i} recorded as {kind} but delivered as {g[1]}"))
                 break
             if g[2] != content:
-                key = {"kind": kind, "injected": injected, "modified": modified,
-                       "longer_than_fragment_size": len(content) > fs,
+                # (one key per failure mode: re-fragmented = the Fragmentizer had to cut the content itself)
+                key = {"kind": kind, "refragmented": bool(injected or modified),
                        "replacement_char_inserted": g[2].count(REPL) > content.count(REPL)}
-                if fsight is not None and modified:
-                    key["same_length_edit"] = len(fsight[2]) == len(content)
                 v.append(_V("content_mismatch", key,
                             f"{d}: message #{i} ({kind}, injected={injected}, modified={modified}) recorded as "
                             f"{_short(content, 48)} but the {dst} received {_short(g[2], 48)} (FRAGMENT_SIZE={fs})"))
@@ -305,7 +353,9 @@ def oracle(sc, obs):
             if k >= len(sent) or fsight is None or (fsight[0], fsight[2]) != (sent[k]["kind"], sent[k]["data"]):
                 what = "nothing" if k >= len(sent) else f"({sent[k]['kind']}, {_short(sent[k]['data'])})"
                 seen = (fsight[0], _short(fsight[2])) if fsight else None
-                v.append(_V("record_mismatch", {"kind": fsight[0] if fsight else None},
+                v.append(_V("record_mismatch", {"kind": fsight[0] if fsight else None, "deflate": obs.deflate,
+                                                "control_frame_inside_fragmented_message":
+                                                    bool(k < len(sent) and sent[k].get("ping_inside"))},
                             f"{d}: recorded message #{i} first seen by addons as {seen} but the {src}'s message #{k} was {what}"))
                 ok_map = False
                 break
@@ -343,6 +393,13 @@ def oracle(sc, obs):
                     if inside:
                         probes["split_inside_codepoint"] = 1
                 same = (len(g[3]) == len(lens)) if obs.deflate else (list(g[3]) == list(lens))
+                inj_during = any(x[4] == "ok" and x[1] == (src == "server") and
+                                 sent[k]["t0"] <= x[0] <= (sent[k]["t1"] or x[0]) + 0.001 for x in obs.injected)
+                if not same and inj_during:
+                    v.append(_V("injection_merged_with_partial_message", {},
+                                f"{d}: a message was injected while the {src}'s {kind} message #{i} (fragments {lens}) was only "
+                                f"partly received; its fragments arrived as {g[3]} (frame buffer shared with the injected message)"))
+                    break
                 if not same:
                     v.append(_V("frame_boundaries_changed",
                                 {"kind": kind, "deflate": obs.deflate, "split_inside_codepoint": inside,
@@ -412,7 +469,6 @@ def oracle(sc, obs):
         seen = (fsight[0], fsight[1], fsight[2]) if fsight else None
         if seen != want:
             key = {"what": "content" if seen and seen[:2] == want[:2] else "type_or_direction", "kind": want[0],
-                   "longer_than_fragment_size": len(data) > fs,
                    "replacement_char_inserted": bool(seen) and seen[2].count(REPL) > data.count(REPL)}
             v.append(_V("injection_mismatch", key,
                         f"injected ({want[0]}, to_client={to_client}, {_short(data, 48)}) but addons saw "
